@@ -45,6 +45,14 @@ def worlds(tier, seed):
         eng = [("SEA", "CMAf"), ("DE", "SEA"), ("SEA", "DE", "CMAf")][j % 3]
         out.append(dict(engines=list(eng), gens=1, Mh=7, seed=s + 11 + j, sprout={"kind": "simple", "L": 2}, hib=bool(j % 2), drive="run", request_probe=False, reuse_components=True,
                         lsc=[None] + [{"kind": "steadiness", "n": 2, "dev": 0.02}] * (len(eng) - 1), obj="twofunnel"))
+    # user-composed mechanisms that let several candidates of one deme through in one round (no DemeLimit(1)),
+    # with SkipSameSprout / LevelLimit in either order: the order in which siblings are created must be reproducible
+    for j, eng in enumerate([("SEA", "DE"), ("DE", "CMAf"), ("SHADE", "SEA"), ("LHS", "DE"), ("SEA", "DE", "CMAf"), ("GA", "SEAX"), ("SOB", "SHADE"), ("MWEA", "DEd")]):
+        chain = [{"kind": "skipsame"}, {"kind": "levellimit", "limit": 4}]
+        out.append(dict(engines=list(eng), gens=1 + j % 2, Mh=5, seed=s + j, hib=bool(j % 2), drive="run", request_probe=False, pop=(10, 14)[j % 2], obj=("twofunnel", "sphere_in")[j % 2],
+                        maximize=bool((j // 2) % 2),
+                        sprout={"kind": "composed", "gen": {"kind": "nbc", "factor": (1.0, 0.5)[j % 2], "trunc": 1.0}, "deme_chain": ([], [{"kind": "demelimit", "limit": 3}])[(j // 2) % 2],
+                                "tree_chain": chain if j % 3 else chain[::-1], "L": 4}))
     # random_seed = 0 is a seed like any other
     for eng in [e for e in shapes_h2() if e[1].startswith("CMA")] + [("SEA",), ("LHS", "SOB"), ("DE", "SHADE")]:
         k += 1
